@@ -128,6 +128,14 @@ def check_instance(inst, F, ctx, extra):
 def main(tier, seed, t0):
     st, d = runner.stage_inst(tier, seed)
     ctx, n = runner.run_instances('props.c19', d, extra={})
+    # compile-time ascriptions: const contexts, fn pointers, trait bounds - per iter mode x string mode x shape
+    from corpus import rejects as RJ
+    cases = RJ.c19_cases(tier)
+    bst, br = runner.stage_batch('c19-' + tier, cases)
+    runner.judge_batch(ctx, cases, br, PROP, lambda c: 'the feature templates named in the rustc diagnostic')
+    ctx.programs |= {c['id'] for c in cases}
+    if len(cases) < 60:
+        ctx.error('ascription witness count %d below floor 60' % len(cases))
     return runner.finish(PROP, tier, seed, 'translation_validation', ctx, t0,
                          coverage_extra={'instances_in_corpus': n, 'cache_hit': st.hit, 'tree': st.tree},
                          nontrivial_rule='distinct (item, mode, gapless/holes, repr) combinations whose signature was compared with the documented one',
